@@ -147,7 +147,25 @@ func (in *Interp) vsymCall(name string, args []Value, c *ssa.CallCommon) []Value
 		o.kind = "cbuf"
 		s := in.sortMust(et)
 		for i := 0; i < n; i++ {
-			o.slots[i] = in.newSym(fmt.Sprintf("%s[%d]", strArg(args[0]), i), s)
+			v := in.newSym(fmt.Sprintf("%s[%d]", strArg(args[0]), i), s)
+			o.slots[i] = v
+			if v.sort == SInt {
+				// element range of the C type (C.int / C.uint for Go int / uint)
+				lo, hi := new(big.Int), new(big.Int)
+				switch name {
+				case "CBufInt", "CBufInt32":
+					hi.Lsh(big.NewInt(1), 31)
+					lo.Neg(hi)
+				case "CBufUint", "CBufUint32":
+					hi.Lsh(big.NewInt(1), 32)
+				case "CBufInt64":
+					hi.Lsh(big.NewInt(1), 63)
+					lo.Neg(hi)
+				default:
+					hi.Lsh(big.NewInt(1), 64)
+				}
+				in.axiom(ts.And(ts.IntCmp("sle", ts.IntConst(SInt, lo), v), ts.IntCmp("slt", v, ts.IntConst(SInt, hi))))
+			}
 		}
 		return one(&PtrV{obj: o})
 	case "UF1", "UF2", "UF3", "UFMono1":
